@@ -6,6 +6,7 @@ CONSTANTS
   Kinds = {"pos", "rec", "plain", "nohist", "cache"}
   UrgentAsync = TRUE
   RecLimit = 0
+  MaxChecks = 1
   Servers = {FALSE, TRUE}
 INVARIANTS TypeOK C01 C02 C03 C10 C16 PosConsistent
 CHECK_DEADLOCK FALSE
